@@ -33,8 +33,8 @@ def object_fields(
 ) -> Mapping[str, ObjectField]:
     class GetFields(ObjectVisitor[Sequence[ObjectField]]):
         def _skip_field(self, field: ObjectField) -> bool:
-            return (field.skip.deserialization and serialization) or (
-                field.skip.serialization and deserialization
+            return (field.skip.deserialization and deserialization) or (
+                field.skip.serialization and serialization
             )
 
         @staticmethod
